@@ -152,6 +152,8 @@ type HTTPMap struct {
 	Verb      string     `json:"verb"`
 	Path      string     `json:"path"`
 	MorePaths []string   `json:"more_paths,omitempty"`
+	// MoreRoutes are further routes of the same endpoint with their own verb: [verb, path]
+	MoreRoutes [][]string `json:"more_routes,omitempty"`
 	Params    []Mapped   `json:"params,omitempty"`
 	Headers   []Mapped   `json:"headers,omitempty"`
 	Cookies   []Mapped   `json:"cookies,omitempty"`
